@@ -6,6 +6,9 @@ From SV Require Import lib.Bytes lib.Closure model.Graph model.GraphInv
 Import ListNotations.
 Open Scope N_scope.
 
+Section HH.
+Context {hh : bool}.
+
 (* ------------------------------------------------------------------------------------------ *)
 (* detaching a list of detached nodes: closed form                                             *)
 (* ------------------------------------------------------------------------------------------ *)
@@ -141,7 +144,7 @@ Record NPost (k : key) (creator : option key) (cdet : bool) (s s1 : st) : Prop :
            exists n0, findn x (nodes s) = Some n0 /\ (ncre n1 = None \/ ncre n1 = ncre n0) }.
 
 Lemma create_nodes_spec strict k creator s :
-  Inv s -> fst k <> KRoot -> new_node_ok (nodes s) k creator (cdet_of creator s) ->
+  Inv hh s -> fst k <> KRoot -> new_node_ok (nodes s) k creator (cdet_of creator s) ->
   (strict = true -> is_detached k s = true) ->
   wpg strict (create_nodes k creator (cdet_of creator s) s) (NPost k creator (cdet_of creator s) s).
 Proof.
@@ -239,7 +242,7 @@ Qed.
 (* consequences of NPost                                                                       *)
 (* ------------------------------------------------------------------------------------------ *)
 Lemma NPost_deps k creator cdet s s1 :
-  Inv s -> NPost k creator cdet s s1 -> DWl (nodes s1) (deps s1) /\ acyclic (EL (deps s1)).
+  Inv hh s -> NPost k creator cdet s s1 -> DWl (nodes s1) (deps s1) /\ acyclic (EL (deps s1)).
 Proof.
   intros HI HP. rewrite (np_deps _ _ _ _ _ HP).
   pose proof (Inv_filter_deps s (fun d => negb (key_eqb (dsnk d) k)) HI) as HI'.
@@ -249,7 +252,7 @@ Proof.
 Qed.
 
 Lemma NPost_ud k creator cdet s s1 fs :
-  Inv s -> NPost k creator cdet s s1 -> incl fs (files s) ->
+  Inv hh s -> NPost k creator cdet s s1 -> incl fs (files s) ->
   (forall r, In r fs -> (KFile, fl r) <> k) -> UDl (nodes s1) fs.
 Proof.
   intros HI HP Hi Hne r Hr Hst n1 Hn1.
@@ -268,8 +271,8 @@ Qed.
 (* Step.initialize_row                                                                         *)
 (* ------------------------------------------------------------------------------------------ *)
 Lemma step_row_inv l creator cdet nd s s1 :
-  Inv s -> NPost (KStep, l) creator cdet s s1 ->
-  Inv (set_steps s1 (filter (fun r => negb (str_eqb (sl r) l)) (steps s1) ++ [mkS l SPending nd false 0 0])).
+  Inv hh s -> NPost (KStep, l) creator cdet s s1 ->
+  Inv hh (set_steps s1 (filter (fun r => negb (str_eqb (sl r) l)) (steps s1) ++ [mkS l SPending nd false 0 0])).
 Proof.
   intros HI HP. destruct (NPost_deps _ _ _ _ _ HI HP) as [HD HA].
   pose proof (inv_rw _ HI) as [R1 R2 R3 R4 R5 R6 R7].
@@ -297,7 +300,7 @@ Proof.
   - exact HA.
   - rewrite (np_files _ _ _ _ _ HP). apply (NPost_ud _ _ _ _ _ _ HI HP); [apply incl_refl | discriminate].
   - rewrite (np_files _ _ _ _ _ HP). apply (inv_fh _ HI).
-  - intros r Hr. apply in_app_or in Hr. destruct Hr as [Hr|[<-|[]]]; [|reflexivity].
+  - intros r Hr. apply in_app_or in Hr. destruct Hr as [Hr|[<-|[]]]; [|destruct hh; reflexivity].
     apply filter_In in Hr. destruct Hr as [Hr _]. rewrite (np_steps _ _ _ _ _ HP) in Hr. apply (inv_sw _ HI). exact Hr.
 Qed.
 
@@ -305,10 +308,10 @@ Qed.
 (* File.initialize_row                                                                         *)
 (* ------------------------------------------------------------------------------------------ *)
 Lemma file_row_spec strict l creator cdet f s s1 :
-  Inv s -> NPost (KFile, l) creator cdet s s1 ->
+  Inv hh s -> NPost (KFile, l) creator cdet s s1 ->
   (f = FUndeclared -> creator = None /\ cdet = true) ->
   (strict = true -> needs_hash f = false) ->
-  wpg strict (file_initialize_row l f s1) (fun s' => Inv s' /\ nodes s' = nodes s1).
+  wpg strict (file_initialize_row l f s1) (fun s' => Inv hh s' /\ nodes s' = nodes s1).
 Proof.
   intros HI HP Hund Hst. destruct (NPost_deps _ _ _ _ _ HI HP) as [HD HA].
   pose proof (inv_rw _ HI) as [R1 R2 R3 R4 R5 R6 R7].
@@ -329,7 +332,7 @@ Proof.
     pose proof (findf_In _ _ _ Hold) as [Hr0in Hr0l].
     assert (HkKL : In (KFile, l) (KL (nodes s))).
     { apply R3. rewrite <- Hr0l. apply in_map. exact Hr0in. }
-    assert (HIU : InvU s1).
+    assert (HIU : InvU hh s1).
     { constructor.
       - apply (np_nw _ _ _ _ _ HP).
       - rewrite (np_files _ _ _ _ _ HP), (np_steps _ _ _ _ _ HP), (np_envs _ _ _ _ _ HP). constructor; try assumption.
@@ -342,7 +345,7 @@ Proof.
       - rewrite (np_files _ _ _ _ _ HP). apply (inv_fh _ HI).
       - rewrite (np_steps _ _ _ _ _ HP). apply (inv_sw _ HI). }
     apply wpg_bind. unfold set_fstate. eapply wpg_weaken.
-    { apply set_fstate_hash_gen; [exact HIU | | |].
+    { apply (@set_fstate_hash_gen hh); [exact HIU | | |].
       - rewrite (np_files _ _ _ _ _ HP). apply (NPost_ud _ _ _ _ _ _ HI HP).
         + intros r Hr. apply filter_In in Hr. tauto.
         + intros r Hr. apply filter_In in Hr. destruct Hr as [_ Hr]. apply negb_true_iff in Hr.
@@ -356,10 +359,10 @@ Proof.
     intros s2 [HI2 [HSO2 [_ [_ [_ [Hnew2 _]]]]]].
     assert (Hne : find_file l s1 <> None). { rewrite Hff. discriminate. }
     specialize (HI2 Hne). specialize (Hnew2 Hne).
-    assert (Hdone : wpg strict (Ok s2) (fun s' => Inv s' /\ nodes s' = nodes s1)).
+    assert (Hdone : wpg strict (Ok s2) (fun s' => Inv hh s' /\ nodes s' = nodes s1)).
     { cbn. split; [exact HI2 | apply (so_nodes _ _ HSO2)]. }
     destruct state; try exact Hdone.
-    eapply wpg_weaken; [apply mark_file_outdated_spec; [exact HI2 | intros _; left; exact Hnew2]|].
+    eapply wpg_weaken; [apply (@mark_file_outdated_spec hh); [exact HI2 | intros _; left; exact Hnew2]|].
     intros s3 [HI3 [HSO3 _]]. split; [exact HI3|]. rewrite (so_nodes _ _ HSO3). apply (so_nodes _ _ HSO2).
   - (* no row: the node is new *)
     assert (HkKL : ~ In (KFile, l) (KL (nodes s))).
@@ -372,7 +375,7 @@ Proof.
       rewrite is_detached_findn, (np_k _ _ _ _ _ HP). cbn. destruct (Hund E) as [_ ->]. reflexivity. }
     rewrite Echk. cbn [bind].
     set (s2 := set_files s1 (files s1 ++ [mkF l f None])).
-    assert (HI2 : Inv s2).
+    assert (HI2 : Inv hh s2).
     { constructor; cbn [nodes files steps deps shash envs set_files s2].
       - apply (np_nw _ _ _ _ _ HP).
       - rewrite (np_files _ _ _ _ _ HP), (np_steps _ _ _ _ _ HP), (np_envs _ _ _ _ _ HP). constructor; try assumption.
@@ -416,11 +419,11 @@ Proof.
 Qed.
 
 Lemma create_spec strict k creator arg s :
-  Inv s -> arg_ok k creator arg ->
+  Inv hh s -> arg_ok k creator arg ->
   (strict = true -> creator_ok k creator s = Ok tt /\ is_detached k s = true /\
                     (forall f, arg = InitFile f -> needs_hash f = false)) ->
   wpg strict (create k creator arg s)
-      (fun s' => Inv s' /\ NF [k] s s' /\ In k (KL (nodes s')) /\
+      (fun s' => Inv hh s' /\ NF [k] s s' /\ In k (KL (nodes s')) /\
                  is_detached k s' = cdet_of creator s).
 Proof.
   intros HI Harg Hst. rewrite create_unfold.
@@ -454,3 +457,5 @@ Proof.
     + exact HKin.
     + exact Hdet1.
 Qed.
+
+End HH.
